@@ -219,7 +219,7 @@ thorough ≈ 10–20 s per property.
 ## 5. Genuine defects on the pinned tree and their handling
 
 Each of these is what the named rule reports on the pinned tree (`ec837c5`) or,
-for F12, on the tree before its fix, and each was confirmed against the real
+for F12 and F13, on the tree before their fixes, and each was confirmed against the real
 code with a concrete witness before it was repaired. All repairs are single
 unguarded `fix:` commits in `/repo`; after each, the 322 baseline tests pass
 (`tools/baseline.sh`) and the rule passes **without the rule being touched**.
@@ -241,6 +241,16 @@ them and are reported).
 | F10 | C07 | C07.nonzero-divisor | `iterator.Last`, `stream.Last` | `n == 0` divides by zero | fix 47f1b98 |
 | F11 | C11 | C11.batch-timer | `BatchFunc` waiting arm flushes without `stopTimer()` | stale timer later delivers an empty batch | fix 4f66ace |
 | F12 | C19 (C07) | C19.runs-adjacent | `xslices.Runs` | `Runs([1,2,3]) = [[] [2] [3]]`, `Runs([1]) = []` (`findings/F12_…`) | fix 81e9519 |
+
+| F13 | C12 | C12.assert-nil-safe | `chans.Merge`, reflect path (>= 4 inputs) | a nil value of an interface element type (`chan error`) panics at `item.Interface().(T)` while 1-3 inputs forward it (`findings/F13_…`) | fix f07bcc6 |
+
+F13 was pointed out by a seed-round-5 sub-agent as a remark on the clean tree (it
+is the sibling of F7: a single-result assertion to a type parameter on a value
+that came through `any`). It was confirmed with a test against the real code,
+repaired, and the rule `C12.assert-nil-safe` (every assertion to a type parameter
+in package `chans` uses the two-result form) was written; it reports the defect on
+the tree before the fix (control `merge-single-result-assert`). Six kept patches
+that touched the adjacent lines were re-diffed against the fixed tree.
 
 F12 had first been noted by reading as "outside the technique's reach"; the
 loop-phi induction rule (`C19.runs-adjacent`) was then written, reports both
